@@ -389,7 +389,10 @@ func failedEarlierRun(ps *progSet) {
 	}
 	failedEarlierRuns++
 	tails := []string{"if true {\nzzq = 1 + nil\n}\n", "for zzi = 0; zzi < 2; zzi = zzi + 1 {\nzzq = 1 + nil\n}\n", "zzq = 1 + nil\n",
-		"for zzv in [1, 2] {\nif zzv {\nzzq = 1 + nil\n}\n}\n", "zzl = [1]\nif false {\n} elif true {\nfor ;; {\nzzq = zzl[5]\n}\n}\n"}
+		"for zzv in [1, 2] {\nif zzv {\nzzq = 1 + nil\n}\n}\n",
+		// the failure happens while a call is collecting its arguments / a literal its elements (after some were evaluated)
+		"zzl = [1]\nprintf(\"%v %v %v\", 7, \"stale\", zzl[5])\n", "zzl = [1]\nif true {\nstrfmt(zzk, \"%v %v\", 8, zzl[5])\n}\n",
+		"zzl = [1]\nzzq = [7, \"stale\", zzl[5]]\n", "zzl = [1]\nzzm = {\"a\": 7, \"b\": zzl[5]}\n", "zzl = [1]\nadd_key(zzk, zzl[5])\nprobe(7, zzl[5])\n", "zzl = [1]\nif false {\n} elif true {\nfor ;; {\nzzq = zzl[5]\n}\n}\n"}
 	src := b.String() + tails[failedEarlierRuns%len(tails)]
 	o := &runObs{}
 	if ps.V2 {
